@@ -11,3 +11,31 @@ func Clamp(v, lo, hi int) int {
 	}
 	return v
 }
+
+// Names that garble treats specially when they are declared in particular standard library
+// packages (embed.FS, atomic.align64, reflect.Method/MethodByName, pkix's *SET types).
+// Declared here, in an ordinary package, they are ordinary names.
+type FS struct{ rootSET string }
+
+type align64 struct{ padRESET int }
+
+type ItemSET []int
+
+type memberSET struct{ ownerTokenSET int }
+
+var CounterRESET = 3
+
+var ledgerOFFSET = 4
+
+func Method(f FS) string { return f.rootSET }
+
+func MethodByName(a ItemSET) int { return len(a) + (align64{padRESET: 1}).padRESET }
+
+func computeVaultOFFSET(m memberSET) int { return m.ownerTokenSET + ledgerOFFSET }
+
+func (m memberSET) rotateLedgerSET() int { return m.ownerTokenSET * 2 }
+
+func TrapSum() int {
+	m := memberSET{ownerTokenSET: 5}
+	return computeVaultOFFSET(m) + m.rotateLedgerSET() + MethodByName(ItemSET{1, 2}) + len(Method(FS{rootSET: "r"})) + CounterRESET
+}
